@@ -8,6 +8,7 @@ clean_lockfiles / tile_path — over the in-memory tile store.
 Symbolic: the inputs' sizes and integer placement offsets on the common grid, their contents (NaN allowed), the
 inspected tile (witness index in every input's tile loop) and the inspected pixel.
 """
+from vlib.core import soft_attr as core_u
 import numpy as _np
 import z3
 
@@ -265,10 +266,10 @@ def cases(tier):
 
 
 def check(run):
-    run.uses(tmt.MultiTanProcessor.compute_global_pixelization, tmt.MultiTanProcessor.tile, tmt.MultiTanProcessor._tile_serial, tmt._mp_tile_worker,
+    run.uses(tmt.MultiTanProcessor.compute_global_pixelization, tmt.MultiTanProcessor.tile, core_u(tmt.MultiTanProcessor, "_tile_serial"), core_u(tmt, "_mp_tile_worker"),
              ts.StudyTiling.__init__, ts.StudyTiling.compute_for_subimage, ts.StudyTiling.generate_populated_positions,
              ts.StudyTiling.count_populated_positions, ts.StudyTiling.apply_to_imageset, ti.ImageDescription.ensure_negative_parity,
-             ti.Image.flip_parity, ti.Image.get_parity_sign, ti._flip_wcs_parity, ti.Image.update_into_maskable_buffer,
+             ti.Image.flip_parity, ti.Image.get_parity_sign, core_u(ti, "_flip_wcs_parity"), ti.Image.update_into_maskable_buffer,
              tp.PyramidIO.update_image, tp.PyramidIO.read_image, tp.PyramidIO.write_image, tp.PyramidIO.clean_lockfiles)
     lc = symx.loop_carried_names(tmt.MultiTanProcessor._tile_serial)
     # the outer loop over inputs is executed in full; only the inner tile loop is summarised
